@@ -118,7 +118,7 @@ func (u *universe) markedFork(f uint64) map[uint64]H {
 }
 
 var byzantine = []string{"forkearlier", "verifypanic", "panicadj", "shift", "shiftback", "dup", "reorder", "forkfrom", "forkmid", "forgedlink", "wrongchain", "invalid",
-	"future", "gap", "nfafter", "unknown", "undecodable", "decpanic", "garbage", "hang", "reset", "empty", "garbage0", "hang0"}
+	"future", "gap", "nfafter", "unknown", "undecodable", "decpanic", "valpanic", "valpanicend", "garbage", "hang", "reset", "empty", "garbage0", "hang0"}
 var benign = []string{"honest", "partial", "overlong", "notfound"}
 
 func hdrFrames(hs []H) []sess.Frame {
@@ -262,6 +262,14 @@ func (b beh) reply(u *universe, o, a uint64) sess.Reply {
 		return sess.Reply{Frames: append(hdrFrames(hon[:j]), sess.Frame{Kind: sess.FUndecodable})}
 	case "decpanic":
 		return sess.Reply{Frames: append(hdrFrames(hon[:j]), sess.Frame{Kind: sess.FPanic})}
+	case "valpanic":
+		// the true headers, except that Validate() PANICS on the one at position j (wire flag 2)
+		fs := hdrFrames(hon)
+		fs[j] = sess.Frame{Kind: sess.FValPanic, H: hon[j]}
+		return sess.Reply{Frames: fs}
+	case "valpanicend":
+		// a Validate panic as last frame after j true headers
+		return sess.Reply{Frames: append(hdrFrames(hon[:j]), sess.Frame{Kind: sess.FValPanic, H: hon[j]})}
 	case "garbage":
 		return sess.Reply{Frames: hdrFrames(hon[:j1]), Tail: sess.TGarbage}
 	case "garbage0":
@@ -513,9 +521,17 @@ func runScenario(t *testing.T, w *emit.Writer, reg *vhdr.Registry, u *universe, 
 // ---- the verify-panic probe: a panic of the type-level Verify outside the session's recover happens on a
 // request goroutine and kills the whole process; it can only be observed from outside
 
-func probeScenario(u *universe) scenario {
-	p := uniform(1, []beh{{kind: "verifypanic", j: 1}}, beh{kind: "honest"})
-	return scenario{name: "probe-verify-panics-in-chunk", peers: 1, chunk: 4, from: u.truth[5], to: 5 + 1 + 3, plan: p}
+func probeScenario(u *universe) scenario { return probeScenarioKind(u, "verifypanic") }
+
+// probeScenarioKind: one peer whose first answer carries, in second position, a header on which the
+// type-level Verify ("verifypanic") or Validate ("valpanic") panics
+func probeScenarioKind(u *universe, kind string) scenario {
+	p := uniform(1, []beh{{kind: kind, j: 1}}, beh{kind: "honest"})
+	name := "probe-verify-panics-in-chunk"
+	if kind != "verifypanic" {
+		name = "probe-" + kind + "-in-chunk"
+	}
+	return scenario{name: name, peers: 1, chunk: 4, from: u.truth[5], to: 5 + 1 + 3, plan: p}
 }
 
 // TestC05VerifyPanicChild is the child side of the probe (skipped unless started by probeVerifyPanic).
@@ -524,7 +540,7 @@ func TestC05VerifyPanicChild(t *testing.T) {
 		t.Skip("child side of the verify-panic probe")
 	}
 	u := newUniverse()
-	sc := probeScenario(u)
+	sc := probeScenarioKind(u, os.Getenv("VERIF_C05_PANIC_CHILD"))
 	u.start = sc.from.H + 1
 	synctest.Test(t, func(t *testing.T) {
 		vhdr.SetPolicy(panicPolicy(0))
@@ -540,16 +556,19 @@ func TestC05VerifyPanicChild(t *testing.T) {
 	})
 }
 
-func probeVerifyPanic(t *testing.T) bool {
+func probeVerifyPanic(t *testing.T) bool { return probePanic(t, "verifypanic") }
+
+// probePanic runs the probe scenario of the given kind in a child process and says whether the client survived
+func probePanic(t *testing.T, kind string) bool {
 	cmd := exec.Command(os.Args[0], "-test.run=^TestC05VerifyPanicChild$", "-test.timeout=120s")
-	cmd.Env = append(os.Environ(), "VERIF_C05_PANIC_CHILD=1")
+	cmd.Env = append(os.Environ(), "VERIF_C05_PANIC_CHILD="+kind)
 	out, err := cmd.CombinedOutput()
 	switch {
 	case strings.Contains(string(out), "C05-CHILD-SURVIVED"):
 		return true
-	case err != nil && strings.Contains(string(out), "scripted verify panic"):
+	case err != nil && (strings.Contains(string(out), "scripted verify panic") || strings.Contains(string(out), vhdr.ValidatePanicMsg)):
 		lines := strings.SplitN(string(out), "\n", 12)
-		t.Logf("the client process is killed by a response on which the header type's Verify panics:\n%s", strings.Join(lines[:min(len(lines), 10)], "\n"))
+		t.Logf("the client process is killed by a response on which the header type's %s panics:\n%s", kind, strings.Join(lines[:min(len(lines), 10)], "\n"))
 		return false
 	default:
 		t.Fatalf("inconclusive verify-panic probe (%v):\n%s", err, out)
@@ -557,14 +576,26 @@ func probeVerifyPanic(t *testing.T) bool {
 	}
 }
 
-func (p plan) panics() bool {
-	for i := range p.first {
-		for _, b := range p.first[i] {
-			if b.kind == "verifypanic" || b.kind == "panicadj" {
+func (p plan) panics() bool { return p.uses("verifypanic", "panicadj") }
+
+func (p plan) valPanics() bool { return p.uses("valpanic", "valpanicend") }
+
+func (p plan) uses(kinds ...string) bool {
+	is := func(k string) bool {
+		for _, x := range kinds {
+			if x == k {
 				return true
 			}
 		}
-		if k := p.deflt[i].kind; k == "verifypanic" || k == "panicadj" {
+		return false
+	}
+	for i := range p.first {
+		for _, b := range p.first[i] {
+			if is(b.kind) {
+				return true
+			}
+		}
+		if is(p.deflt[i].kind) {
 			return true
 		}
 	}
@@ -578,7 +609,7 @@ func TestC05(t *testing.T) {
 	w.PerShard(120)
 	w.Rule = "one GetRangeByHeight of the real p2p.Exchange on a libp2p mocknet (virtual time) against 1-4 scripted peers; per (peer, attempt) a behaviour " +
 		"from the catalogue {honest, partial, overlong, NOT_FOUND | shifted +/-, duplicate of the first chunk, reordered, whole-chunk fork, fork inside chunk, forged link, " +
-		"wrong chain, invalid, future-dated, gap, NOT_FOUND after headers, unknown status, undecodable, decode panic, garbage bytes, silent, reset, empty}; chunk 1-8, " +
+		"wrong chain, invalid, future-dated, gap, NOT_FOUND after headers, unknown status, undecodable, decode panic, Validate panic (inside / at the end of the answer), garbage bytes, silent, reset, empty}; chunk 1-8, " +
 		"range 1..3*chunk+2, trust range unlimited or 2-11; plus degenerate (from,to) pairs, from at height 2^64-1, ranges beyond the slice limit, every behaviour alone. " +
 		"Case = (parameters, the peers' log of (request, frames) in arrival order, result); distinct by (peers, chunk, range bucket, behaviours seen, result kind); " +
 		"non-trivial = headers returned although some answer was not honest"
@@ -606,9 +637,28 @@ func TestC05(t *testing.T) {
 			"obs": "panic", "detail": "observed in a child process: the whole client process died (panic on a request goroutine)"}, "probe/verifypanic", false)
 		w.Count("observation", "process killed by verify panic")
 	}
+	// the same for a header on which Validate() panics (recovered by the same deferred function of
+	// session.processResponses, but earlier: inside the package-level processResponses)
+	valPanicSafe := probePanic(t, "valpanic")
+	w.Extra["client_survives_validate_panic_in_response"] = valPanicSafe
+	if !valPanicSafe {
+		sc := probeScenarioKind(u, "valpanic")
+		u.start = sc.from.H + 1
+		rep := sc.plan.at(0, 0).reply(u, sc.from.H+1, sc.to-sc.from.H-1)
+		log := []sess.Event{{Peer: 0, Now: epoch, Origin: sc.from.H + 1, Amount: sc.to - sc.from.H - 1, Frames: rep.Frames, Behave: "valpanic"}}
+		term := fmt.Sprintf("Case05 %s 0 %d %d %s %d [0] %s OPanic", emit.Z(int64(drift)), sess.MaxCap, sc.chunk,
+			reg.Term(sc.from), sc.to, sess.LogTerm(reg, log))
+		w.Add(term, map[string]any{"scenario": sc.name, "peers": 1, "chunk": sc.chunk, "from": sc.from.H, "to": sc.to, "log": sess.Summary(log),
+			"obs": "panic", "detail": "observed in a child process: the whole client process died (Validate panic on a request goroutine)"}, "probe/valpanic", false)
+		w.Count("observation", "process killed by validate panic")
+	}
 	run := func(sc scenario) {
 		if !panicSafe && sc.plan.panics() {
 			w.Count("skipped", "would kill the driver: verify panic")
+			return
+		}
+		if !valPanicSafe && sc.plan.valPanics() {
+			w.Count("skipped", "would kill the driver: validate panic")
 			return
 		}
 		runScenario(t, w, reg, u, sc, drift)
